@@ -161,6 +161,12 @@ def run(ctx):
         if not writes_here or beh not in ("Immediate", "Exclusive"):
             # Deferred transactions must not write at all (R16.2); nothing to commit
             continue
+        if b.key in ("@bin::ood::run", "@bin::targets::run", "@bin::sources::run"):
+            # query commands roll back by design (C17 R17.1 requires that they never commit); what
+            # they write (forgetting vanished targets) is recomputed on demand and is not a dependency record
+            ctx.ob("R16.6", "txn|%s|query-command-rolls-back-by-design" % k, True, where=ctx.where(b, i),
+                   detail="query command: writes only the 'forgotten target' normalisation and never commits (checked by C17 R17.1)", nontrivial=False)
+            continue
         n += 1
         commits = [j for j in uses if call_matches(b.blocks[j]["term"], r"state::ProcessTransaction::commit")]
         setc = []
